@@ -1177,3 +1177,21 @@ M("c13-extra-gate-wrong-state", "C13", "_context.py", "C13.R6", "an extra 'clear
 M("c11-owner-remembered-by-helper", "C11", "_event.py", "C11.R6", "__get__ hands the owner to a helper that keeps it in a module-level list",
   ("    def __get__(self, instance: Hashable, owner: Any) -> Signal[T_Event]:\n        if instance is None:\n            return self\n", "    def __get__(self, instance: Hashable, owner: Any) -> Signal[T_Event]:\n        if instance is None:\n            return self\n\n        remember_owner(instance)\n"),
   ("@dataclass\nclass Signal(Generic[T_Event]):", "_seen_owners: list = []\n\n\ndef remember_owner(obj: object) -> None:\n    _seen_owners.append(obj)\n\n\n@dataclass\nclass Signal(Generic[T_Event]):"), control=False)
+
+
+# =============================================================================== equivalent edits found by the mutation sweep (must stay silent)
+T("c19-twin-sweep-ctx-before-resolve", "C19", "_context.py", "sync resolver fetches the current context before resolving forward references (independent statements swapped in one sibling only)",
+  ("    def resolve_resources() -> dict[str, Any]:\n        if not forward_refs_resolved:\n            resolve_forward_refs()\n\n        ctx = current_context()\n",
+   "    def resolve_resources() -> dict[str, Any]:\n        ctx = current_context()\n        if not forward_refs_resolved:\n            resolve_forward_refs()\n\n"))
+T("c10-twin-sweep-stamp-time-after-delivery", "C10", "_event.py", "event.time stamped after the (synchronous) delivery loop",
+  ("        event.topic = self._topic\n        event.time = stdlib_time()\n\n        for stream in list(self._send_streams):", "        event.topic = self._topic\n\n        for stream in list(self._send_streams):"),
+  ("                    stacklevel=2,\n                )\n", "                    stacklevel=2,\n                )\n\n        event.time = stdlib_time()\n"))
+T("c10-twin-sweep-receive-after-subscriptions", "C10", "_event.py", "the receive end is entered on the exit stack after the subscriptions (closed before they are removed: dispatch swallows BrokenResourceError)",
+  ("        exit_stack.enter_context(receive)\n        for signal in signals:\n            exit_stack.enter_context(signal._subscribe(send))\n", "        for signal in signals:\n            exit_stack.enter_context(signal._subscribe(send))\n\n        exit_stack.enter_context(receive)\n"))
+T("c15-twin-sweep-return-none", "C15", "_runner.py", "clean shutdown returns None instead of 0 (same under run_application's truthiness conversion)",
+  ("                await event.wait()\n\n        return 0\n", "                await event.wait()\n\n        return None\n"))
+T("c01-twin-sweep-exceptions-front", "C01", "_context.py", "callback exceptions are collected at the front of the list (order inside the group is unspecified)",
+  ("                exceptions.append(e)\n", "                exceptions.insert(0, e)\n"))
+T("c09-twin-sweep-add-after-start-soon", "C09", "_concurrent.py", "the handle is added to the live set right after the synchronous start_soon (no checkpoint in between)",
+  ("        self._tasks.add(task_handle)\n        self._task_group.start_soon(\n            self._run_background_task,\n            func,\n            task_handle,\n            self.exception_handler,\n            name=task_handle.name,\n        )\n        return task_handle\n",
+   "        self._task_group.start_soon(\n            self._run_background_task,\n            func,\n            task_handle,\n            self.exception_handler,\n            name=task_handle.name,\n        )\n        self._tasks.add(task_handle)\n        return task_handle\n"))
